@@ -42,7 +42,7 @@ class ClassInfo:
     def find_method(self, name):
         if name in self.methods:
             return self.methods[name], self
-        if name in self.attrs and isinstance(self.attrs[name], ast.Name):
+        if name in self.attrs and isinstance(self.attrs[name], ast.Name) and self.attrs[name].id != name:
             # alias such as  __contains__ = contains
             return self.find_method(self.attrs[name].id)
         for b in self.bases:
@@ -73,7 +73,13 @@ class ModuleInfo:
             if isinstance(st, ast.FunctionDef):
                 self.functions[st.name] = st
             elif isinstance(st, ast.ClassDef):
-                self.classes[st.name] = ClassInfo(st.name, st, self)
+                ci = self.classes[st.name] = ClassInfo(st.name, st, self)
+                for sub in st.body:
+                    if isinstance(sub, ast.ClassDef):
+                        # nested class: registered under its bare name (first definition wins) and reachable as
+                        # an attribute of the outer class
+                        self.classes.setdefault(sub.name, ClassInfo(sub.name, sub, self))
+                        ci.attrs.setdefault(sub.name, ast.Name(id=sub.name, ctx=ast.Load()))
             elif isinstance(st, ast.Assign):
                 for t in st.targets:
                     if isinstance(t, ast.Name):
